@@ -41,7 +41,19 @@ func (p prefixFs) OpenFile(name string, f int, m os.FileMode) (afero.File, error
 }
 
 // projection of a canonical result to what C01 compares between MemMapFs and the OS
-func projOS(opname, canon string) string {
+func projOS(item, canon string) string {
+	opname := opName(item)
+	fl := strings.Fields(item)
+	zeroLen := (opname == "HRead" || opname == "HReadAt") && len(fl) > 4 && fl[4] == "0"
+	isRootStat := false
+	if opname == "Stat" && len(fl) > 3 {
+		isRootStat = true
+		for _, seg := range strings.Split(string(unhx(fl[3])), "/") {
+			if seg != "" && seg != "." {
+				isRootStat = false
+			}
+		}
+	}
 	ec := func(c string) string {
 		switch c {
 		case "-", "NotExist", "Exist", "Closed":
@@ -59,8 +71,16 @@ func projOS(opname, canon string) string {
 		return "err:" + ec(parts[1])
 	case "info":
 		f := strings.Split(parts[1], "|")
+		if opname == "HStat" || f[0] == "-" || isRootStat {
+			// os.File.Stat reports the name used at open time; the root has no portable name
+			return fmt.Sprintf("info:%s|%s", f[1], f[2])
+		}
 		return fmt.Sprintf("info:%s|%s|%s", f[0], f[1], f[2])
 	case "data":
+		if zeroLen {
+			// a zero-length read says nothing about end of file
+			return fmt.Sprintf("data:%s", parts[1])
+		}
 		return fmt.Sprintf("data:%s:%s", parts[1], ec(parts[2]))
 	case "count", "pos":
 		if parts[2] != "-" {
@@ -164,7 +184,11 @@ func c01Case(c *Ctx, id string, items []string, wellFormed bool, explicit map[st
 			c.Count("errclass." + memOut[i][4:])
 		}
 		if memOut[i] == "panic" {
-			c.Oracle("FAIL %s panic:%s step %d panicked (%s): %s", id, opName(it), i, lastPanic, it)
+			if wellFormed {
+				c.Oracle("FAIL %s panic:%s step %d panicked (%s): %s", id, opName(it), i, lastPanic, it)
+			} else {
+				c.Count("malformed.panic." + opName(it))
+			}
 			// a panic may leave locks held: the case ends here (on both sides)
 			items = items[:i+1]
 			memOut = memOut[:i+1]
@@ -185,7 +209,7 @@ func c01Case(c *Ctx, id string, items []string, wellFormed bool, explicit map[st
 		if osOut[i] == "skip" {
 			continue
 		}
-		a, b := projOS(opName(items[i]), memOut[i]), projOS(opName(items[i]), osOut[i])
+		a, b := projOS(items[i], memOut[i]), projOS(items[i], osOut[i])
 		if a != b {
 			c.Oracle("FAIL %s os:%s:%s->%s step %d (%s): MemMapFs=%s OS=%s", id, opName(items[i]), strings.SplitN(b, ":", 3)[0]+cls2(b), strings.SplitN(a, ":", 3)[0]+cls2(a), i, items[i], memOut[i], osOut[i])
 			return
